@@ -139,11 +139,13 @@ func (p *ProjectRunner) runProcess(config *types.ProcessConfig) {
 		withIsMain(isMain),
 		withExtraArgs(extraArgs),
 	)
+	verifRegister(process)
 	p.addRunningProcess(process)
 	p.waitGroup.Add(1)
 	go func(proc *Process) {
 		defer p.removeRunningProcess(proc)
 		defer p.waitGroup.Done()
+		verifGate(proc, "spawned")
 		if err = p.waitIfNeeded(proc.procConf); err != nil {
 			log.Error().Msgf("Error: %s", err.Error())
 			log.Error().Msgf("Error: process %s won't run", proc.getName())
@@ -160,6 +162,8 @@ func (p *ProjectRunner) runProcess(config *types.ProcessConfig) {
 func (p *ProjectRunner) waitIfNeeded(process *types.ProcessConfig) error {
 	for k := range process.DependsOn {
 		if proc := p.getDoneOrRunningProcess(k); proc != nil {
+			verifTraceDep(process, k, "DepResolved", proc)
+			verifGateName(process.ReplicaName, "waitdep")
 			switch process.DependsOn[k].Condition {
 			case types.ProcessConditionCompleted:
 				proc.waitForCompletion()
@@ -167,6 +171,7 @@ func (p *ProjectRunner) waitIfNeeded(process *types.ProcessConfig) error {
 				log.Info().Msgf("%s is waiting for %s to complete successfully", process.ReplicaName, k)
 				exitCode := proc.waitForCompletion()
 				if exitCode != 0 {
+					verifTraceDep(process, k, "DepUnsat", proc)
 					return fmt.Errorf("process %s depended on %s to complete successfully, but it exited with status %d",
 						process.ReplicaName, k, exitCode)
 				}
@@ -174,20 +179,24 @@ func (p *ProjectRunner) waitIfNeeded(process *types.ProcessConfig) error {
 				log.Info().Msgf("%s is waiting for %s to be healthy", process.ReplicaName, k)
 				ready := proc.waitUntilReady()
 				if !ready {
+					verifTraceDep(process, k, "DepUnsat", proc)
 					return fmt.Errorf("process %s depended on %s to become ready, but it was terminated", process.ReplicaName, k)
 				}
 			case types.ProcessConditionLogReady:
 				log.Info().Msgf("%s is waiting for %s log line %s", process.ReplicaName, k, proc.procConf.ReadyLogLine)
 				ready := proc.waitUntilLogReady()
 				if !ready {
+					verifTraceDep(process, k, "DepUnsat", proc)
 					return fmt.Errorf("process %s depended on %s to become ready, but it was terminated", process.ReplicaName, k)
 				}
 			case types.ProcessConditionStarted:
 				log.Info().Msgf("%s is waiting for %s to start", process.ReplicaName, k)
 				proc.waitForStarted()
 			}
+			verifTraceDep(process, k, "DepSatisfied", proc)
 		} else {
 			log.Error().Msgf("Error: process %s depends on %s, but it isn't running or completed", process.ReplicaName, k)
+			verifTraceDep(process, k, "DepResolved", nil)
 		}
 
 	}
@@ -199,6 +208,7 @@ func (p *ProjectRunner) onProcessEnd(exitCode int, procConf *types.ProcessConfig
 		procConf.RestartPolicy.ExitOnEnd {
 		_ = p.ShutDownProject()
 		p.exitCode = exitCode
+		verifTraceRunner(p, "ProjExit", "code", exitCode, "by", procConf.ReplicaName, "cause", "end")
 	}
 }
 
@@ -206,6 +216,7 @@ func (p *ProjectRunner) onProcessSkipped(procConf *types.ProcessConfig) {
 	if procConf.RestartPolicy.ExitOnSkipped {
 		_ = p.ShutDownProject()
 		p.exitCode = 1
+		verifTraceRunner(p, "ProjExit", "code", 1, "by", procConf.ReplicaName, "cause", "skipped")
 	}
 }
 
@@ -291,12 +302,14 @@ func (p *ProjectRunner) getProcessesStateData(filter filterFn) error {
 func (p *ProjectRunner) addRunningProcess(process *Process) {
 	p.runProcMutex.Lock()
 	p.runningProcesses[process.getName()] = process
+	verifTrace(process, "Spawn")
 	p.runProcMutex.Unlock()
 }
 
 func (p *ProjectRunner) addDoneProcess(process *Process) {
 	p.doneProcMutex.Lock()
 	p.doneProcesses[process.getName()] = process
+	verifTrace(process, "DoneReg")
 	p.doneProcMutex.Unlock()
 }
 
@@ -328,6 +341,7 @@ func (p *ProjectRunner) getDoneOrRunningProcess(name string) *Process {
 func (p *ProjectRunner) removeRunningProcess(process *Process) {
 	p.runProcMutex.Lock()
 	delete(p.runningProcesses, process.getName())
+	verifTrace(process, "Unreg")
 	p.runProcMutex.Unlock()
 }
 
@@ -337,6 +351,7 @@ func (p *ProjectRunner) StartProcess(name string) error {
 		log.Error().Msgf("Process %s is already running", name)
 		return fmt.Errorf("process %s is already running", name)
 	}
+	verifGateName(name, "api.start.checked")
 	if processConfig, ok := p.project.Processes[name]; ok {
 		p.runProcess(&processConfig)
 	} else {
@@ -394,8 +409,10 @@ func (p *ProjectRunner) RestartProcess(name string) error {
 			log.Err(err).Msgf("failed to stop process %s", name)
 			return err
 		}
+		verifGateName(name, "api.restart.stopped")
 		time.Sleep(proc.getBackoff())
 	}
+	verifGateName(name, "api.restart.slept")
 
 	if processConfig, ok := p.project.Processes[name]; ok {
 		p.runProcess(&processConfig)
@@ -504,6 +521,7 @@ func (p *ProjectRunner) shutDownInOrder(wg *sync.WaitGroup, shutdownOrder []*Pro
 			waitForDepsWg.Wait()
 			log.Debug().Msgf("[%s]: waited for all dependencies to shut down", proc.getName())
 
+			verifGate(proc, "shutdown.stop")
 			err := proc.shutDown()
 			if err != nil {
 				log.Err(err).Msgf("failed to shutdown %s", proc.getName())
@@ -520,6 +538,7 @@ func (p *ProjectRunner) shutDownAndWait(shutdownOrder []*Process) {
 		p.shutDownInOrder(&wg, shutdownOrder)
 	} else {
 		for _, proc := range shutdownOrder {
+			verifGate(proc, "shutdown.stop")
 			err := proc.shutDown()
 			if err != nil {
 				log.Err(err).Msgf("failed to shutdown %s", proc.getName())
@@ -563,11 +582,13 @@ func (p *ProjectRunner) ShutDownProject() error {
 		nameOrder = append(nameOrder, v.getName())
 	}
 	log.Debug().Msgf("Shutting down %d processes. Order: %q", len(shutdownOrder), nameOrder)
+	verifTraceRunner(p, "ShutdownBegin", "order", nameOrder, "ordered", p.isOrderedShutDown)
 	for _, proc := range shutdownOrder {
 		proc.prepareForShutDown()
 	}
 
 	p.shutDownAndWait(shutdownOrder)
+	verifTraceRunner(p, "ShutdownReturn")
 	p.cancelAppFn()
 	return nil
 }
